@@ -93,6 +93,20 @@ Proof.
     + apply Hx. match goal with H : Sub [x] l |- _ => apply (Sub_In [x] l) end; cbn; auto.
 Qed.
 
+Lemma NoDup_app_l {A} (l m : list A) : NoDup (l ++ m) -> NoDup l.
+Proof.
+  induction l as [|x l IH]; cbn; intros H; [constructor|].
+  inversion H; subst. constructor; auto. intros C. apply H2. apply in_or_app. auto.
+Qed.
+
+Lemma NoDup_app_notin {A} (l m : list A) x : NoDup (l ++ m) -> In x l -> ~ In x m.
+Proof.
+  induction l as [|y l IH]; cbn; intros H Hin; [contradiction|].
+  inversion H; subst. destruct Hin as [E|E].
+  - subst. intros C. apply H2. apply in_or_app. auto.
+  - auto.
+Qed.
+
 (* ------------------------------------------------------------------ the order kept by the active list *)
 Definition before (a b : timer) : Prop :=
   ts_le (t_ts a) (t_ts b) = true /\ (ts_le (t_ts b) (t_ts a) = true -> t_id a < t_id b).
@@ -395,7 +409,14 @@ Proof.
   - (* LCancel *) destruct (do_cancel st id) as [s r] eqn:E. inversion H; subst.
     eapply do_cancel_inv; eauto.
   - (* LSignal *) destruct (pend st) as [|p] eqn:Ep; [discriminate|]. inversion H; subst; clear H.
-    destruct I as [Is Ii In0 Il Iw Idue Ie Isg It]. constructor; cbn; auto.
+    destruct I as [Is Ii In0 Il Iw Idue Ie Isg It]. constructor; cbn.
+    + exact Is.
+    + exact Ii.
+    + exact In0.
+    + exact Il.
+    + exact Iw.
+    + exact Idue.
+    + exact Ie.
     + destruct (thr st); cbn; auto.
     + intros d Hd. rewrite Hd. cbn. auto.
   - (* LWake *) destruct (thr st) as [d|] eqn:Et; [|discriminate].
@@ -404,52 +425,872 @@ Proof.
     destruct (inv_wait _ I _ Et) as (Ee & Er & Ed).
     destruct I as [Is Ii In0 Il Iw Idue Ie Isg It].
     destruct pre as [|p pre]; inversion H; subst; clear H.
-    + constructor; cbn; auto.
-      * intros d' Hd'. auto.
+    + constructor; cbn.
+      * exact Is.
+      * exact Ii.
+      * exact In0.
+      * exact Il.
+      * intros d' _. auto.
       * discriminate.
+      * exact Ie.
+      * reflexivity.
       * intros d' Hd'. inversion Hd'; subst. auto.
     + assert (P : firedT st ++ (p :: pre) ++ post = pipe st).
       { unfold pipe. rewrite Ee, Eapp. reflexivity. }
-      constructor; cbn; auto.
+      constructor; cbn.
       * rewrite Eapp in Is. apply (sorted_app_inv _ _ Is).
-      * unfold pipe; cbn. fold (firedT st). unfold firedT at 1; cbn. fold (firedT st).
-        change (map fst (fired st)) with (firedT st). rewrite P. assumption.
-      * unfold pipe; cbn. change (map fst (fired st)) with (firedT st). rewrite P. assumption.
+      * rewrite <- P in Ii. exact Ii.
+      * rewrite <- P in In0. exact In0.
+      * exact Il.
       * discriminate.
-      * intros now' Hn. inversion Hn; subst. assumption.
+      * intros now' Hn. inversion Hn; subst. exact Hdue.
+      * exact Ie.
       * discriminate.
       * discriminate.
-  - (* LBegin *) destruct (thr st) as [|now] eqn:Et; [discriminate|].
+  - (* LBegin *) destruct (thr st) as [d|now] eqn:Et; [discriminate|].
     destruct (running st) eqn:Er; [discriminate|]. destruct (expired st) as [|t r] eqn:Ee; [discriminate|].
     inversion H; subst; clear H.
     destruct I as [Is Ii In0 Il Iw Idue Ie Isg It].
     assert (P : map fst (fired st ++ [(t, now)]) ++ r ++ active st = pipe st).
     { unfold pipe, firedT. rewrite Ee, map_app. cbn. rewrite <- app_assoc. reflexivity. }
     specialize (Idue _ Et). rewrite Ee in Idue. inversion Idue; subst.
-    constructor; cbn; auto.
-    + unfold pipe, firedT; cbn. rewrite P. assumption.
-    + unfold pipe, firedT; cbn. rewrite P. assumption.
-    + rewrite Et. discriminate.
-    + rewrite Et. intros now' Hn. inversion Hn; subst. assumption.
+    constructor; cbn.
+    + exact Is.
+    + rewrite <- P in Ii. exact Ii.
+    + rewrite <- P in In0. exact In0.
+    + exact Il.
+    + try rewrite Et. discriminate.
+    + try rewrite Et. intros now' Hn. inversion Hn; subst. assumption.
     + apply Forall_app. split; auto.
-    + rewrite Et. discriminate.
+    + intros Hs. specialize (Isg Hs). rewrite Et in Isg. exact Isg.
+    + try rewrite Et. discriminate.
   - (* LCbSet *) destruct (running st) as [[tm [|[cb|] rem]]|] eqn:Er; try discriminate.
     destruct (do_set (set_running st (Some (tm, rem))) t cb) as [s i] eqn:E. inversion H; subst.
-    eapply do_set_inv; eauto. apply set_running_inv; auto. eapply running_not_wait; eauto.
+    refine (proj1 (do_set_inv (set_running st (Some (tm, rem))) _ _ _ _ _ Hw E)). apply set_running_inv; auto. eapply running_not_wait; eauto.
   - (* LCbCancel *) destruct (running st) as [[tm [|[cb|] rem]]|] eqn:Er; try discriminate.
     destruct (do_cancel (set_running st (Some (tm, rem))) id) as [s r] eqn:E. inversion H; subst.
-    eapply do_cancel_inv; eauto. apply set_running_inv; auto. eapply running_not_wait; eauto.
+    refine (do_cancel_inv (set_running st (Some (tm, rem))) _ _ _ _ E). apply set_running_inv; auto. eapply running_not_wait; eauto.
   - (* LEnd *) destruct (running st) as [[tm [|c rem]]|] eqn:Er; try discriminate.
     inversion H; subst; clear H. pose proof (running_not_wait _ _ I Er) as Hnw.
-    destruct I as [Is Ii In0 Il Iw Idue Ie Isg It]. constructor; cbn; auto.
-    intros d Hd. rewrite Hd in Hnw. discriminate.
-  - (* LRetire *) destruct (thr st) as [|now] eqn:Et; [discriminate|].
-    destruct (running st) eqn:Er; [discriminate|]. destruct (expired st) as [|t r] eqn:Ee; [discriminate|].
+    destruct I as [Is Ii In0 Il Iw Idue Ie Isg It]. constructor; cbn.
+    + exact Is.
+    + exact Ii.
+    + exact In0.
+    + exact Il.
+    + intros d Hd. rewrite Hd in Hnw. discriminate.
+    + exact Idue.
+    + exact Ie.
+    + exact Isg.
+    + exact It.
+  - (* LRetire *) destruct (thr st) as [d|now] eqn:Et; [discriminate|].
+    destruct (running st) eqn:Er; [discriminate|]. destruct (expired st) as [|t r] eqn:Ee; [|discriminate].
     inversion H; subst; clear H.
-    destruct I as [Is Ii In0 Il Iw Idue Ie Isg It]. constructor; cbn; auto.
-    + unfold pipe, firedT in *; cbn. rewrite Ee in Ii. assumption.
-    + unfold pipe, firedT in *; cbn. rewrite Ee in In0. assumption.
+    destruct I as [Is Ii In0 Il Iw Idue Ie Isg It]. constructor; cbn.
+    + exact Is.
+    + unfold pipe in Ii. rewrite Ee in Ii. exact Ii.
+    + unfold pipe in In0. rewrite Ee in In0. exact In0.
+    + exact Il.
+    + auto.
     + discriminate.
+    + exact Ie.
+    + reflexivity.
     + intros d Hd. inversion Hd; subst. auto.
 Qed.
 End Steps.
+
+(* ------------------------------------------------------------------ what a step does to the pipeline *)
+Definition is_cancel_of (id : Z) (l : label) : Prop := l = LCancel id \/ l = LCbCancel id.
+Definition is_set (l : label) : Prop := match l with LSet _ _ | LCbSet _ => True | _ => False end.
+
+Lemma do_set_pipe st t cb st' id :
+  Inv st -> last_id st < long_max -> do_set st t cb = (st', id) ->
+  exists tm X Y, pipe st = X ++ Y /\ pipe st' = X ++ tm :: Y /\ t_id tm = id /\ t_ts tm = t /\ t_cb tm = cb
+    /\ id = last_id st + 1 /\ last_id st' = id /\ In tm (active st').
+Proof.
+  intros I Hw H. destruct (do_set_inv _ _ _ _ _ I Hw H) as [_ Hid].
+  destruct (do_set_fields _ _ _ _ _ H) as (slot & _ & Ha & He & _ & _ & Hl & _ & _ & Hf & _).
+  cbv zeta in *. set (tm := mkT id t cb slot) in *.
+  destruct (insert_split tm (active st)) as (l1 & l2 & E1 & E2 & _).
+  exists tm, (firedT st ++ expired st ++ l1), l2. unfold pipe, firedT. rewrite Hf, He, Ha, E2.
+  rewrite E1 at 1. rewrite <- !app_assoc. repeat split; auto.
+  rewrite in_app_iff. cbn. auto.
+Qed.
+
+Lemma do_cancel_pipe st id st' r : do_cancel st id = (st', r) ->
+  (r <> 1 /\ st' = st)
+  \/ (r = 1 /\ exists t X Y, pipe st = X ++ t :: Y /\ pipe st' = X ++ Y /\ t_id t = id
+        /\ last_id st' = last_id st /\ In t (active st)).
+Proof.
+  intros H. destruct (do_cancel_fields _ _ _ _ H) as [(-> & _ & ->)|[(-> & _ & -> & _)|C]].
+  - left. split; [lia|reflexivity].
+  - left. split; [lia|reflexivity].
+  - right. destruct C as (-> & _ & t & l1 & l2 & Ea & Ea' & Eid & _ & He & _ & _ & Hl & _ & _ & Hf & _).
+    split; auto. exists t, (firedT st ++ expired st ++ l1), l2. unfold pipe, firedT.
+    rewrite Hf, He, Ea, Ea', <- !app_assoc. repeat split; auto. rewrite in_app_iff. cbn. auto.
+Qed.
+
+Section Runs.
+Variable prog : nat -> list cop.
+
+Lemma pipe_step st l st' o : Inv st -> last_id st < long_max -> step prog st l = Some (st', o) ->
+  (pipe st' = pipe st /\ last_id st' = last_id st /\ o <> ORet 1 \/ (pipe st' = pipe st /\ last_id st' = last_id st /\ ~ is_set l /\ forall id, ~ is_cancel_of id l))
+  \/ (exists tm X Y id, o = ORet id /\ is_set l /\ pipe st = X ++ Y /\ pipe st' = X ++ tm :: Y
+        /\ t_id tm = id /\ id = last_id st + 1 /\ last_id st' = id)
+  \/ (exists t X Y, o = ORet 1 /\ is_cancel_of (t_id t) l /\ pipe st = X ++ t :: Y /\ pipe st' = X ++ Y
+        /\ last_id st' = last_id st /\ In t (active st)).
+Proof.
+  intros I Hw H.
+  assert (NS : forall l', (match l' with LSet _ _ | LCbSet _ | LCancel _ | LCbCancel _ => False | _ => True end) ->
+               ~ is_set l' /\ forall id, ~ is_cancel_of id l').
+  { intros l' Hl. split; [destruct l'; cbn in *; tauto|].
+    intros id [C|C]; subst; cbn in Hl; tauto. }
+  destruct l; cbn [step] in H.
+  - destruct (do_set st t cb) as [s i] eqn:E. inversion H; subst.
+    destruct (do_set_pipe _ _ _ _ _ I Hw E) as (tm & X & Y & P0 & P1 & Ei & _ & _ & Hi & Hl & _).
+    right. left. exists tm, X, Y, i. cbn. repeat split; auto.
+  - destruct (do_cancel st id) as [s r] eqn:E. inversion H; subst.
+    destruct (do_cancel_pipe _ _ _ _ E) as [(Hr & ->)|(-> & t & X & Y & P0 & P1 & Ei & Hl & Ha)].
+    + left. left. repeat split; auto. congruence.
+    + right. right. exists t, X, Y. repeat split; auto. left. congruence.
+  - destruct (pend st); [discriminate|]. inversion H; subst. left. right. repeat split; try apply NS; cbn; auto.
+  - destruct (thr st) as [d|] eqn:Et; [|discriminate].
+    destruct (span_due now (active st)) as [pre post] eqn:Es.
+    destruct (span_due_spec _ _ _ _ Es) as (Eapp & _ & _).
+    destruct (inv_wait _ I _ Et) as (Ee & _ & _).
+    destruct pre; inversion H; subst; left; right; repeat split; try apply NS; cbn; auto.
+    unfold pipe. cbn [fired expired active]. rewrite Ee, Eapp. reflexivity.
+  - destruct (thr st) as [d|now] eqn:Et; [discriminate|].
+    destruct (running st); [discriminate|]. destruct (expired st) as [|t r] eqn:Ee; [discriminate|].
+    inversion H; subst. left. right. repeat split; try apply NS; cbn; auto.
+    unfold pipe, firedT. cbn [fired expired active]. rewrite Ee, map_app. cbn. rewrite <- app_assoc. reflexivity.
+  - destruct (running st) as [[tm [|[cb|] rem]]|] eqn:Er; try discriminate.
+    destruct (do_set (set_running st (Some (tm, rem))) t cb) as [s i] eqn:E. inversion H; subst.
+    assert (I' : Inv (set_running st (Some (tm, rem)))).
+    { apply set_running_inv; auto. eapply running_not_wait; eauto. }
+    destruct (do_set_pipe _ _ _ _ _ I' Hw E) as (tm' & X & Y & P0 & P1 & Ei & _ & _ & Hi & Hl & _).
+    right. left. exists tm', X, Y, i. cbn. repeat split; auto.
+  - destruct (running st) as [[tm [|[cb|] rem]]|] eqn:Er; try discriminate.
+    destruct (do_cancel (set_running st (Some (tm, rem))) id) as [s r] eqn:E. inversion H; subst.
+    destruct (do_cancel_pipe _ _ _ _ E) as [(Hr & ->)|(-> & t & X & Y & P0 & P1 & Ei & Hl & Ha)].
+    + left. left. repeat split; auto. congruence.
+    + right. right. exists t, X, Y. repeat split; auto. right. congruence.
+  - destruct (running st) as [[tm [|c rem]]|]; try discriminate. inversion H; subst.
+    left. right. repeat split; try apply NS; cbn; auto.
+  - destruct (thr st) as [d|now]; [discriminate|].
+    destruct (running st); [discriminate|]. destruct (expired st) as [|t r] eqn:Ee; [|discriminate].
+    inversion H; subst. left. right. repeat split; try apply NS; cbn; auto.
+    unfold pipe. cbn [fired expired active]. rewrite Ee. reflexivity.
+Qed.
+
+(* callbacks already started stay started, in the same order *)
+Lemma fired_step st l st' o : step prog st l = Some (st', o) ->
+  exists ext, fired st' = fired st ++ ext.
+Proof.
+  intros H. destruct l; cbn [step] in H.
+  - destruct (do_set st t cb) as [s i] eqn:E. inversion H; subst.
+    destruct (do_set_fields _ _ _ _ _ E) as (slot & _ & _ & _ & _ & _ & _ & _ & _ & Hf & _).
+    exists []. rewrite app_nil_r. exact Hf.
+  - destruct (do_cancel st id) as [s r] eqn:E. inversion H; subst.
+    destruct (do_cancel_fields _ _ _ _ E) as [(_ & _ & ->)|[(_ & _ & -> & _)|C]];
+      try (exists []; now rewrite app_nil_r).
+    destruct C as (_ & _ & t & l1 & l2 & _ & _ & _ & _ & _ & _ & _ & _ & _ & _ & Hf & _).
+    exists []. rewrite app_nil_r. exact Hf.
+  - destruct (pend st); [discriminate|]. inversion H; subst. exists []. now rewrite app_nil_r.
+  - destruct (thr st); [|discriminate]. destruct (span_due now (active st)) as [pre post].
+    destruct pre; inversion H; subst; exists []; now rewrite app_nil_r.
+  - destruct (thr st) as [d|now]; [discriminate|]. destruct (running st); [discriminate|].
+    destruct (expired st); [discriminate|]. inversion H; subst. eexists. reflexivity.
+  - destruct (running st) as [[tm [|[cb|] rem]]|]; try discriminate.
+    destruct (do_set (set_running st (Some (tm, rem))) t cb) as [s i] eqn:E. inversion H; subst.
+    destruct (do_set_fields _ _ _ _ _ E) as (slot & _ & _ & _ & _ & _ & _ & _ & _ & Hf & _).
+    exists []. rewrite app_nil_r. exact Hf.
+  - destruct (running st) as [[tm [|[cb|] rem]]|]; try discriminate.
+    destruct (do_cancel (set_running st (Some (tm, rem))) id) as [s r] eqn:E. inversion H; subst.
+    destruct (do_cancel_fields _ _ _ _ E) as [(_ & _ & ->)|[(_ & _ & -> & _)|C]];
+      try (exists []; now rewrite app_nil_r).
+    destruct C as (_ & _ & t & l1 & l2 & _ & _ & _ & _ & _ & _ & _ & _ & _ & _ & Hf & _).
+    exists []. rewrite app_nil_r. exact Hf.
+  - destruct (running st) as [[tm [|c rem]]|]; try discriminate. inversion H; subst.
+    exists []. now rewrite app_nil_r.
+  - destruct (thr st); [discriminate|]. destruct (running st); [discriminate|].
+    destruct (expired st); [|discriminate]. inversion H; subst. exists []. now rewrite app_nil_r.
+Qed.
+
+(* ------------------------------------------------------------------ reachable states *)
+Inductive reach : nat -> state -> Prop :=
+| reach0 : reach 0 init
+| reachS n st l st' o : reach n st -> step prog st l = Some (st', o) -> reach (S n) st'.
+
+Lemma step_last_id st l st' o : step prog st l = Some (st', o) ->
+  last_id st' = last_id st \/ last_id st' = next_id (last_id st).
+Proof.
+  intros H. destruct l; cbn [step] in H.
+  - destruct (do_set st t cb) as [s i] eqn:E. inversion H; subst.
+    destruct (do_set_fields _ _ _ _ _ E) as (slot & Hid & _ & _ & _ & _ & Hl & _). right. congruence.
+  - destruct (do_cancel st id) as [s r] eqn:E. inversion H; subst.
+    destruct (do_cancel_fields _ _ _ _ E) as [(_ & _ & ->)|[(_ & _ & -> & _)|C]]; auto.
+    destruct C as (_ & _ & t & l1 & l2 & _ & _ & _ & _ & _ & _ & _ & Hl & _). auto.
+  - destruct (pend st); [discriminate|]. inversion H; subst. auto.
+  - destruct (thr st); [|discriminate]. destruct (span_due now (active st)) as [pre post].
+    destruct pre; inversion H; subst; auto.
+  - destruct (thr st); [discriminate|]. destruct (running st); [discriminate|].
+    destruct (expired st); [discriminate|]. inversion H; subst. auto.
+  - destruct (running st) as [[tm [|[cb|] rem]]|]; try discriminate.
+    destruct (do_set (set_running st (Some (tm, rem))) t cb) as [s i] eqn:E. inversion H; subst.
+    destruct (do_set_fields _ _ _ _ _ E) as (slot & Hid & _ & _ & _ & _ & Hl & _). right. cbn in *. congruence.
+  - destruct (running st) as [[tm [|[cb|] rem]]|]; try discriminate.
+    destruct (do_cancel (set_running st (Some (tm, rem))) id) as [s r] eqn:E. inversion H; subst.
+    destruct (do_cancel_fields _ _ _ _ E) as [(_ & _ & ->)|[(_ & _ & -> & _)|C]]; auto.
+    destruct C as (_ & _ & t & l1 & l2 & _ & _ & _ & _ & _ & _ & _ & Hl & _). auto.
+  - destruct (running st) as [[tm [|c rem]]|]; try discriminate. inversion H; subst. auto.
+  - destruct (thr st); [discriminate|]. destruct (running st); [discriminate|].
+    destruct (expired st); [|discriminate]. inversion H; subst. auto.
+Qed.
+
+Lemma reach_last_id n st : reach n st -> last_id st <= Z.of_nat n.
+Proof.
+  induction 1 as [|n st l st' o R IH H]; [cbn; lia|].
+  pose proof (next_id_le (last_id st)).
+  destruct (step_last_id _ _ _ _ H) as [->| ->]; lia.
+Qed.
+
+Lemma reach_inv n st : reach n st -> Z.of_nat n < long_max -> Inv st.
+Proof.
+  induction 1 as [|n st l st' o R IH H]; intros Hn; [apply init_inv|].
+  apply (step_inv prog st l st' o); auto.
+  - apply IH. lia.
+  - pose proof (reach_last_id _ _ R). lia.
+Qed.
+
+Lemma reach_run n st ls st' : reach n st -> run prog st ls = Some st' -> reach (n + length ls) st'.
+Proof.
+  revert n st. induction ls as [|l ls IH]; cbn [run length]; intros n st R H.
+  - inversion H; subst. now rewrite Nat.add_0_r.
+  - destruct (step prog st l) as [[s o]|] eqn:E; [|discriminate].
+    rewrite <- plus_n_Sm. apply (IH (S n) s); auto. econstructor; eauto.
+Qed.
+
+(* a state together with the proof obligations one needs to keep stepping *)
+Definition good (n : nat) (st : state) : Prop := reach n st /\ Z.of_nat n < long_max.
+
+Lemma good_inv n st : good n st -> Inv st /\ last_id st < long_max.
+Proof.
+  intros [R Hn]. split; [eapply reach_inv; eauto|]. pose proof (reach_last_id _ _ R). lia.
+Qed.
+End Runs.
+
+(* ------------------------------------------------------------------ main theorems *)
+Section Theorems.
+Variable prog : nat -> list cop.
+Notation step := (step prog).
+Notation run := (run prog).
+Notation reach := (reach prog).
+Notation good := (good prog).
+
+Lemma good_step n st l st' o : good n st -> Z.of_nat (S n) < long_max -> step st l = Some (st', o) -> good (S n) st'.
+Proof. intros [R _] Hn H. split; auto. econstructor; eauto. Qed.
+
+(* ids: positive, pairwise distinct among everything set and not cancelled; a set returns a fresh id *)
+Theorem ids_positive_unique n st : good n st ->
+  NoDup (map t_id (pipe st)) /\ Forall (fun t => 0 < t_id t <= last_id st) (pipe st).
+Proof. intros G. destruct (good_inv _ _ _ G) as [I _]. split; [apply I|apply I]. Qed.
+
+Theorem set_returns_fresh_id n st t cb st' o : good n st -> step st (LSet t cb) = Some (st', o) ->
+  exists tm, o = ORet (t_id tm) /\ t_id tm = last_id st + 1 /\ last_id st' = t_id tm
+    /\ t_ts tm = t /\ t_cb tm = cb /\ In tm (active st').
+Proof.
+  intros G H. destruct (good_inv _ _ _ G) as [I Hw]. cbn in H.
+  destruct (do_set st t cb) as [s i] eqn:E. inversion H; subst.
+  destruct (do_set_pipe _ _ _ _ _ I Hw E) as (tm & X & Y & _ & _ & Ei & Et & Ec & Hi & Hl & Ha).
+  exists tm. subst i. repeat split; auto; congruence.
+Qed.
+
+Theorem active_sorted_stable n st : good n st -> StronglySorted before (active st).
+Proof. intros G. apply (good_inv _ _ _ G). Qed.
+
+Theorem fires_at_most_once n st : good n st -> NoDup (map t_id (firedT st)).
+Proof.
+  intros G. destruct (good_inv _ _ _ G) as [I _]. pose proof (inv_nodup _ I) as H.
+  unfold pipe in H. rewrite map_app in H. eapply NoDup_app_l; eauto.
+Qed.
+
+Theorem never_early n st : good n st ->
+  Forall (fun p => ts_le (t_ts (fst p)) (snd p) = true) (fired st).
+Proof. intros G. apply (good_inv _ _ _ G). Qed.
+
+(* a scan detaches exactly the due timers (all of them), in list order *)
+Theorem wake_detaches_due n st now st' o : good n st -> step st (LWake now) = Some (st', o) ->
+  (forall t, In t (active st) -> ts_le (t_ts t) now = true -> In t (expired st'))
+  /\ (forall t, In t (active st) -> ts_le (t_ts t) now = false -> In t (active st'))
+  /\ active st = expired st' ++ active st'.
+Proof.
+  intros G H. destruct (good_inv _ _ _ G) as [I _]. cbn in H.
+  destruct (thr st) as [d|] eqn:Et; [|discriminate].
+  destruct (span_due now (active st)) as [pre post] eqn:Es.
+  destruct (span_due_spec _ _ _ _ Es) as (Eapp & Hdue & _).
+  pose proof (span_due_rest _ _ _ _ (inv_sorted _ I) Es) as Hrest.
+  destruct (inv_wait _ I _ Et) as (Ee & _ & _).
+  rewrite Forall_forall in *.
+  assert (K : forall t, In t (active st) -> ts_le (t_ts t) now = true -> In t pre).
+  { intros t Ht Hd. rewrite Eapp in Ht. apply in_app_or in Ht. destruct Ht; auto.
+    specialize (Hrest _ H0). congruence. }
+  assert (K' : forall t, In t (active st) -> ts_le (t_ts t) now = false -> In t post).
+  { intros t Ht Hd. rewrite Eapp in Ht. apply in_app_or in Ht. destruct Ht; auto.
+    specialize (Hdue _ H0). congruence. }
+  destruct pre as [|p pre]; inversion H; subst; cbn [expired active].
+  - split; [|split]; auto.
+    + intros t Ht Hd. destruct (K t Ht Hd).
+    + rewrite Ee. reflexivity.
+  - split; [|split]; auto.
+Qed.
+
+(* no lost wake-up: when something is due, the thread's wait is over or a signal is on its way *)
+Theorem due_enables_wake n st d t now : good n st -> thr st = Wait d ->
+  In t (active st) -> ts_le (t_ts t) now = true ->
+  must_wake st now = true \/ (0 < pend st)%nat.
+Proof.
+  intros G Ht Hin Hdue. destruct (good_inv _ _ _ G) as [I _].
+  unfold must_wake. rewrite Ht.
+  destruct (inv_track _ I _ Ht) as [Hs|[Hp|Hd]]; [rewrite Hs; auto|auto|].
+  left. subst d. destruct (active st) as [|h r] eqn:Ea; [contradiction|]. cbn.
+  apply orb_true_iff. right.
+  pose proof (inv_sorted _ I) as Hs. rewrite Ea in Hs. inversion Hs as [|? ? _ Hh]; subst.
+  destruct Hin as [->|Hin]; auto.
+  rewrite Forall_forall in Hh. destruct (Hh _ Hin) as [Hle _]. eapply ts_le_trans; eauto.
+Qed.
+
+(* the signal is delivered without any blocking step: LSignal is enabled whenever one is pending *)
+Theorem signal_enabled st : (0 < pend st)%nat -> exists st', step st LSignal = Some (st', ONone)
+  /\ (is_wait (thr st) = true -> sig st' = true).
+Proof.
+  intros H. cbn. destruct (pend st); [lia|]. eexists. split; [reflexivity|]. cbn. intros ->. reflexivity.
+Qed.
+
+(* ---------------- ids that left the pipeline never come back (below LONG_MAX sets) *)
+Definition dead (id : Z) (st : state) : Prop := ~ In id (map t_id (pipe st)) /\ id <= last_id st.
+
+Lemma dead_step n st l st' o id : good n st -> step st l = Some (st', o) -> dead id st -> dead id st'.
+Proof.
+  intros G H [Hn Hl]. destruct (good_inv _ _ _ G) as [I Hw].
+  destruct (pipe_step prog _ _ _ _ I Hw H) as [[(P & L & _)|(P & L & _)]|[C|C]].
+  - split; [rewrite P|rewrite L]; auto.
+  - split; [rewrite P|rewrite L]; auto.
+  - destruct C as (tm & X & Y & i & _ & _ & P0 & P1 & Ei & Hi & L). split; [|lia].
+    rewrite P1. rewrite P0 in Hn. rewrite map_app in *. cbn [map]. rewrite in_app_iff in *. cbn.
+    intros [C|[C|C]]; [tauto|lia|tauto].
+  - destruct C as (t & X & Y & _ & _ & P0 & P1 & L & _). split; [|lia].
+    rewrite P1. rewrite P0 in Hn. rewrite map_app in *. cbn [map] in Hn. rewrite in_app_iff in *. cbn in Hn. tauto.
+Qed.
+
+Lemma dead_run ls : forall n st st' id, good n st -> Z.of_nat (n + length ls) < long_max ->
+  run st ls = Some st' -> dead id st -> dead id st'.
+Proof.
+  induction ls as [|l ls IH]; cbn [TimerModel.run length]; intros n st st' id G Hn H D.
+  - inversion H; subst; auto.
+  - destruct (step st l) as [[s o]|] eqn:E; [|discriminate].
+    apply (IH (S n) s); auto.
+    + eapply good_step; eauto. lia.
+    + rewrite <- plus_n_Sm in Hn. exact Hn.
+    + eapply dead_step; eauto.
+Qed.
+
+(* ---------------- cancel *)
+Theorem cancel_spec n st id st' o : good n st -> step st (LCancel id) = Some (st', o) ->
+  (o = ORet 1 /\ (exists t, In t (active st) /\ t_id t = id /\ ~ In t (active st')) /\ dead id st')
+  \/ (o = ORet 0 /\ 0 < id /\ ~ In id (map t_id (active st)) /\ st' = st)
+  \/ (o = ORet (-1) /\ id <= 0 /\ st' = st).
+Proof.
+  intros G H. destruct (good_inv _ _ _ G) as [I Hw]. cbn in H.
+  destruct (do_cancel st id) as [s r] eqn:E. inversion H; subst; clear H.
+  destruct (do_cancel_fields _ _ _ _ E) as [(-> & Hle & ->)|[(-> & Hlt & -> & Hn)|C]];
+    [right; right; auto|right; left; auto|].
+  left. destruct C as (-> & Hlt & t & l1 & l2 & Ea & Ea' & Eid & Hn1 & He & _ & _ & Hl & _ & _ & Hf & _).
+  split; auto.
+  pose proof (inv_nodup _ I) as ND. pose proof (inv_ids _ I) as II.
+  assert (P0 : pipe st = (firedT st ++ expired st ++ l1) ++ t :: l2).
+  { unfold pipe. rewrite Ea, <- !app_assoc. reflexivity. }
+  assert (P1 : pipe st' = (firedT st ++ expired st ++ l1) ++ l2).
+  { unfold pipe, firedT. rewrite Hf, He, Ea', <- !app_assoc. reflexivity. }
+  rewrite P0, map_app in ND. cbn [map] in ND. apply NoDup_remove_2 in ND. rewrite <- map_app, <- P1 in ND.
+  split.
+  - exists t. split; [rewrite Ea, in_app_iff; cbn; auto|]. split; auto.
+    intros C. apply ND. rewrite Eid. unfold pipe. rewrite !map_app, !in_app_iff. right. right.
+    apply in_map_iff. exists t. auto.
+  - split; [congruence|]. rewrite Hl. rewrite Forall_forall in II.
+    assert (In t (pipe st)) by (rewrite P0, in_app_iff; cbn; auto). specialize (II _ H). lia.
+Qed.
+
+(* after a successful cancel the callback never runs, whatever happens next *)
+Theorem cancelled_never_fires n st id st' ls st'' : good n st ->
+  step st (LCancel id) = Some (st', ORet 1) ->
+  Z.of_nat (S n + length ls) < long_max -> run st' ls = Some st'' ->
+  ~ In id (map t_id (firedT st'')).
+Proof.
+  intros G H Hn R.
+  destruct (cancel_spec _ _ _ _ _ G H) as [(_ & _ & D)|[(C & _)|(C & _)]]; try discriminate.
+  assert (G' : good (S n) st') by (eapply good_step; eauto; lia).
+  destruct (dead_run ls _ _ _ _ G' Hn R D) as [Hd _].
+  intros C. apply Hd. unfold pipe. rewrite map_app, in_app_iff. auto.
+Qed.
+
+(* same for a cancel made by a running callback *)
+Theorem cb_cancel_spec n st id st' o : good n st -> step st (LCbCancel id) = Some (st', o) ->
+  (o = ORet 1 /\ In id (map t_id (active st)) /\ dead id st')
+  \/ (o = ORet 0 /\ ~ In id (map t_id (active st)) /\ active st' = active st /\ fired st' = fired st)
+  \/ (o = ORet (-1) /\ id <= 0 /\ active st' = active st).
+Proof.
+  intros G H. destruct (good_inv _ _ _ G) as [I Hw]. cbn in H.
+  destruct (running st) as [[tm [|[cb|] rem]]|] eqn:Er; try discriminate.
+  destruct (do_cancel (set_running st (Some (tm, rem))) id) as [s r] eqn:E. inversion H; subst; clear H.
+  assert (I' : Inv (set_running st (Some (tm, rem)))).
+  { apply set_running_inv; auto. eapply running_not_wait; eauto. }
+  destruct (do_cancel_fields _ _ _ _ E) as [(-> & Hle & ->)|[(-> & Hlt & -> & Hn)|C]];
+    [right; right; auto|right; left; auto|].
+  left. destruct C as (-> & Hlt & t & l1 & l2 & Ea & Ea' & Eid & Hn1 & He & _ & _ & Hl & _ & _ & Hf & _).
+  cbn [active set_running expired fired last_id] in *.
+  split; auto. split.
+  { rewrite Ea, map_app, in_app_iff. cbn. auto. }
+  pose proof (inv_nodup _ I) as ND. pose proof (inv_ids _ I) as II.
+  assert (P0 : pipe st = (firedT st ++ expired st ++ l1) ++ t :: l2).
+  { unfold pipe. rewrite Ea, <- !app_assoc. reflexivity. }
+  assert (P1 : pipe st' = (firedT st ++ expired st ++ l1) ++ l2).
+  { unfold pipe, firedT. rewrite Hf, He, Ea', <- !app_assoc. reflexivity. }
+  rewrite P0, map_app in ND. cbn [map] in ND. apply NoDup_remove_2 in ND. rewrite <- map_app, <- P1 in ND.
+  split; [congruence|]. rewrite Hl. rewrite Forall_forall in II.
+  assert (In t (pipe st)) by (rewrite P0, in_app_iff; cbn; auto). specialize (II _ H). lia.
+Qed.
+End Theorems.
+
+(* ------------------------------------------------------------------ order *)
+Lemma timer_eq_dec (a b : timer) : {a = b} + {a <> b}.
+Proof. repeat decide equality. Qed.
+
+Lemma NoDup_map_inv' {A B} (f : A -> B) (l : list A) : NoDup (map f l) -> NoDup l.
+Proof.
+  induction l as [|x l IH]; cbn; intros H; [constructor|].
+  inversion H; subst. constructor; auto. intros C. apply H2. now apply in_map.
+Qed.
+
+Section Order.
+Variable prog : nat -> list cop.
+Notation step := (step prog).
+Notation run := (run prog).
+Notation good := (good prog).
+
+(* the relative order of two entries of the pipeline never changes; an entry leaves only by a successful cancel *)
+Definition ord_inv (a b : timer) (st : state) : Prop :=
+  Sub [a; b] (pipe st) \/ dead (t_id a) st \/ dead (t_id b) st.
+
+Lemma ord_step n st l st' o a b : good n st -> Z.of_nat (S n) < long_max ->
+  step st l = Some (st', o) -> ord_inv a b st -> ord_inv a b st'.
+Proof.
+  intros G Hn H [S|[D|D]].
+  2: { right. left. eapply dead_step; eauto. }
+  2: { right. right. eapply dead_step; eauto. }
+  destruct (good_inv _ _ _ G) as [I Hw].
+  destruct (pipe_step prog _ _ _ _ I Hw H) as [[(P & L & _)|(P & L & _)]|[C|C]].
+  - left. rewrite P. exact S.
+  - left. rewrite P. exact S.
+  - destruct C as (tm & X & Y & i & _ & _ & P0 & P1 & _). left. rewrite P1. rewrite P0 in S.
+    now apply Sub_insert.
+  - destruct C as (t & X & Y & _ & _ & P0 & P1 & L & Ha).
+    pose proof (inv_nodup _ I) as ND. pose proof (inv_ids _ I) as II. rewrite Forall_forall in II.
+    assert (Ht : In t (pipe st)) by (rewrite P0, in_app_iff; cbn; auto).
+    assert (Dt : dead (t_id t) st').
+    { split; [|specialize (II _ Ht); lia].
+      rewrite P0, map_app in ND. cbn [map] in ND. apply NoDup_remove_2 in ND.
+      rewrite P1, map_app. exact ND. }
+    destruct (timer_eq_dec t a) as [->|Na]; [right; left; exact Dt|].
+    destruct (timer_eq_dec t b) as [->|Nb]; [right; right; exact Dt|].
+    left. rewrite P1. rewrite P0 in S. eapply Sub_delete; eauto. cbn. intuition.
+Qed.
+
+Lemma ord_run ls : forall n st st' a b, good n st -> Z.of_nat (n + length ls) < long_max ->
+  run st ls = Some st' -> ord_inv a b st -> ord_inv a b st'.
+Proof.
+  induction ls as [|l ls IH]; cbn [TimerModel.run length]; intros n st st' a b G Hn H D.
+  - inversion H; subst; auto.
+  - destruct (step st l) as [[s o]|] eqn:E; [|discriminate].
+    apply (IH (S n) s); auto.
+    + eapply good_step; eauto. lia.
+    + rewrite <- plus_n_Sm in Hn. exact Hn.
+    + eapply ord_step; eauto. lia.
+Qed.
+
+(* if a precedes b in the active list at some moment and b's callback has started later on, then a's callback
+   started before b's — unless a was cancelled in between (then its id is dead: it never runs) *)
+Theorem order n st ls st' a b : good n st -> Z.of_nat (n + length ls) < long_max ->
+  run st ls = Some st' -> Sub [a; b] (active st) -> In b (firedT st') ->
+  Sub [a; b] (firedT st') \/ dead (t_id a) st'.
+Proof.
+  intros G Hn R S Hb.
+  assert (O : ord_inv a b st).
+  { left. unfold pipe. do 2 apply Sub_app_l. exact S. }
+  pose proof (ord_run ls _ _ _ _ _ G Hn R O) as [S'|[D|[D _]]]; auto.
+  - left. unfold pipe in S'.
+    assert (G' : good (n + length ls) st').
+    { destruct G as [Rr _]. split; auto. eapply reach_run; eauto. }
+    destruct (good_inv _ _ _ G') as [I' _].
+    pose proof (NoDup_map_inv' _ _ (inv_nodup _ I')) as ND. unfold pipe in ND.
+    eapply Sub_pair_split; eauto. eapply NoDup_app_notin; eauto.
+  - exfalso. apply D. unfold pipe. rewrite map_app, in_app_iff. left. now apply in_map.
+Qed.
+
+(* and what "precedes in the active list" means: earlier expiry, or equal expiry and set earlier *)
+Theorem active_order_meaning n st a b : good n st -> Sub [a; b] (active st) ->
+  ts_le (t_ts a) (t_ts b) = true /\ (ts_le (t_ts b) (t_ts a) = true -> t_id a < t_id b).
+Proof. intros G S. eapply sorted_Sub; eauto. eapply active_sorted_stable; eauto. Qed.
+
+(* ---------------- a detached batch is dispatched completely before the thread waits again *)
+Lemma batch_step st l st' o t : step st l = Some (st', o) ->
+  In t (expired st) \/ In t (firedT st) -> In t (expired st') \/ In t (firedT st')
+  \/ (exists d, thr st = Wait d).
+Proof.
+  intros H Hin.
+  destruct (fired_step prog _ _ _ _ H) as (ext & Hf).
+  assert (Fm : In t (firedT st) -> In t (firedT st')).
+  { unfold firedT. rewrite Hf, map_app, in_app_iff. auto. }
+  destruct Hin as [Hin|Hin]; [|auto].
+  destruct l; cbn [TimerModel.step] in H.
+  - destruct (do_set st t0 cb) as [s i] eqn:E. inversion H; subst.
+    destruct (do_set_fields _ _ _ _ _ E) as (slot & _ & _ & He & _). left. rewrite He. exact Hin.
+  - destruct (do_cancel st id) as [s r] eqn:E. inversion H; subst.
+    destruct (do_cancel_fields _ _ _ _ E) as [(_ & _ & ->)|[(_ & _ & -> & _)|C]]; auto.
+    destruct C as (_ & _ & t1 & l1 & l2 & _ & _ & _ & _ & He & _). left. rewrite He. exact Hin.
+  - destruct (pend st); [discriminate|]. inversion H; subst. auto.
+  - destruct (thr st) as [d|]; [|discriminate]. right. right. eauto.
+  - destruct (thr st) as [d|now]; [discriminate|]. destruct (running st); [discriminate|].
+    destruct (expired st) as [|x r] eqn:Ee; [discriminate|]. inversion H; subst. cbn.
+    destruct Hin as [->|Hin]; [|auto]. right. left. unfold firedT. cbn. rewrite map_app, in_app_iff. cbn. auto.
+  - destruct (running st) as [[tm [|[cb|] rem]]|]; try discriminate.
+    destruct (do_set (set_running st (Some (tm, rem))) t0 cb) as [s i] eqn:E. inversion H; subst.
+    destruct (do_set_fields _ _ _ _ _ E) as (slot & _ & _ & He & _). left. rewrite He. exact Hin.
+  - destruct (running st) as [[tm [|[cb|] rem]]|]; try discriminate.
+    destruct (do_cancel (set_running st (Some (tm, rem))) id) as [s r] eqn:E. inversion H; subst.
+    destruct (do_cancel_fields _ _ _ _ E) as [(_ & _ & ->)|[(_ & _ & -> & _)|C]]; auto.
+    destruct C as (_ & _ & t1 & l1 & l2 & _ & _ & _ & _ & He & _). left. rewrite He. exact Hin.
+  - destruct (running st) as [[tm [|c rem]]|]; try discriminate. inversion H; subst. auto.
+  - destruct (thr st); [discriminate|]. destruct (running st); [discriminate|].
+    destruct (expired st); [|discriminate]. contradiction.
+Qed.
+
+Theorem batch_fires_before_next_wait ls : forall n st st' t d, good n st ->
+  Z.of_nat (n + length ls) < long_max -> run st ls = Some st' ->
+  In t (expired st) \/ In t (firedT st) -> thr st' = Wait d -> In t (firedT st').
+Proof.
+  induction ls as [|l ls IH]; cbn [TimerModel.run length]; intros n st st' t d G Hn H Hin Hw.
+  - inversion H; subst. destruct Hin as [Hin|Hin]; auto.
+    destruct (good_inv _ _ _ G) as [I _]. destruct (inv_wait _ I _ Hw) as (Ee & _). rewrite Ee in Hin. contradiction.
+  - destruct (step st l) as [[s o]|] eqn:E; [|discriminate].
+    assert (G' : good (S n) s) by (eapply good_step; eauto; lia).
+    rewrite <- plus_n_Sm in Hn.
+    destruct (batch_step _ _ _ _ _ E Hin) as [K|[K|[d0 K]]].
+    + eapply (IH (S n) s); eauto.
+    + eapply (IH (S n) s); eauto.
+    + (* the thread was waiting: the batch was already empty *)
+      destruct (good_inv _ _ _ G) as [I _]. destruct (inv_wait _ I _ K) as (Ee & _).
+      destruct Hin as [Hin|Hin]; [rewrite Ee in Hin; contradiction|].
+      destruct (fired_step prog _ _ _ _ E) as (ext & Hf).
+      eapply (IH (S n) s); eauto. right. unfold firedT. rewrite Hf, map_app, in_app_iff. auto.
+Qed.
+
+(* ---------------- no deadlock state *)
+(* set and cancel are enabled in EVERY state — in particular while a batch is out and a callback runs *)
+Theorem set_always_enabled st t cb : exists st' id, step st (LSet t cb) = Some (st', ORet id).
+Proof. cbn. destruct (do_set st t cb) as [s i]. eauto. Qed.
+
+Theorem cancel_always_enabled st id : exists st' r, step st (LCancel id) = Some (st', ORet r).
+Proof. cbn. destruct (do_cancel st id) as [s r]. eauto. Qed.
+
+(* a running callback can always execute its next operation, whatever its arguments *)
+Theorem callback_op_enabled st tm c rem : running st = Some (tm, c :: rem) ->
+  match c with
+  | CSet cb => forall t, exists st' id, step st (LCbSet t) = Some (st', ORet id)
+  | CCancel => forall id, exists st' r, step st (LCbCancel id) = Some (st', ORet r)
+  end.
+Proof.
+  intros Hr. destruct c as [cb|]; intros x; cbn; rewrite Hr.
+  - destruct (do_set _ x cb) as [s i]. eauto.
+  - destruct (do_cancel _ x) as [s r]. eauto.
+Qed.
+
+(* while dispatching, the timer thread itself always has a step, and each one uses up the batch *)
+Definition disp_measure (st : state) : nat :=
+  (match running st with Some (_, rem) => S (length rem) | None => O end)
+  + fold_right (fun t acc => S (S (length (prog (t_cb t)))) + acc)%nat O (expired st).
+
+Definition thread_label (l : label) : Prop :=
+  match l with LBegin | LEnd | LRetire | LCbSet _ | LCbCancel _ => True | _ => False end.
+
+Theorem disp_progress n st now : good n st -> thr st = Disp now ->
+  exists l st' o, thread_label l /\ step st l = Some (st', o).
+Proof.
+  intros G Ht. destruct (running st) as [[tm [|[cb|] rem]]|] eqn:Er.
+  - exists LEnd. cbn. rewrite Er. eauto.
+  - exists (LCbSet (0, 0)). cbn. rewrite Er.
+    destruct (do_set (set_running st (Some (tm, rem))) (0, 0) cb) as [s i]. eauto.
+  - exists (LCbCancel 0). cbn. rewrite Er.
+    destruct (do_cancel (set_running st (Some (tm, rem))) 0) as [s r]. eauto.
+  - destruct (expired st) as [|t r] eqn:Ee.
+    + exists LRetire. cbn. rewrite Ht, Er, Ee. eauto.
+    + exists LBegin. cbn. rewrite Ht, Er, Ee. eauto.
+Qed.
+
+Theorem disp_measure_decreases st l st' o : thread_label l -> step st l = Some (st', o) ->
+  (exists d, thr st' = Wait d) \/ (disp_measure st' < disp_measure st)%nat.
+Proof.
+  intros Hl H. destruct l; cbn in Hl; try contradiction; cbn [TimerModel.step] in H.
+  - destruct (thr st) as [d|now]; [discriminate|]. destruct (running st) eqn:Er; [discriminate|].
+    destruct (expired st) as [|x r] eqn:Ee; [discriminate|]. inversion H; subst. right.
+    unfold disp_measure. cbn [running expired]. rewrite Er, Ee. cbn. lia.
+  - destruct (running st) as [[tm [|[cb|] rem]]|] eqn:Er; try discriminate.
+    destruct (do_set (set_running st (Some (tm, rem))) t cb) as [s i] eqn:E. inversion H; subst.
+    destruct (do_set_fields _ _ _ _ _ E) as (slot & _ & _ & He & Hr & _). right.
+    unfold disp_measure. rewrite He, Hr, Er. cbn. lia.
+  - destruct (running st) as [[tm [|[cb|] rem]]|] eqn:Er; try discriminate.
+    destruct (do_cancel (set_running st (Some (tm, rem))) id) as [s r] eqn:E. inversion H; subst.
+    right. unfold disp_measure. rewrite Er.
+    destruct (do_cancel_fields _ _ _ _ E) as [(_ & _ & ->)|[(_ & _ & -> & _)|C]]; cbn; try lia.
+    destruct C as (_ & _ & t1 & l1 & l2 & _ & _ & _ & _ & He & Hr & _). rewrite He, Hr. cbn. lia.
+  - destruct (running st) as [[tm [|c rem]]|] eqn:Er; try discriminate. inversion H; subst. right.
+    unfold disp_measure. cbn [running expired]. rewrite Er. cbn. lia.
+  - destruct (thr st); [discriminate|]. destruct (running st); [discriminate|].
+    destruct (expired st); [|discriminate]. inversion H; subst. left. cbn. eauto.
+Qed.
+
+(* steps of other threads leave the measure alone: they cannot prolong a batch *)
+Theorem other_threads_keep_measure st l st' o :
+  match l with LSet _ _ | LCancel _ | LSignal => True | _ => False end ->
+  step st l = Some (st', o) -> disp_measure st' = disp_measure st /\ thr st' = thr st.
+Proof.
+  intros Hl H. destruct l; try contradiction; cbn [TimerModel.step] in H.
+  - destruct (do_set st t cb) as [s i] eqn:E. inversion H; subst.
+    destruct (do_set_fields _ _ _ _ _ E) as (slot & _ & _ & He & Hr & _ & _ & Ht & _).
+    unfold disp_measure. rewrite He, Hr. auto.
+  - destruct (do_cancel st id) as [s r] eqn:E. inversion H; subst.
+    destruct (do_cancel_fields _ _ _ _ E) as [(_ & _ & ->)|[(_ & _ & -> & _)|C]]; auto.
+    destruct C as (_ & _ & t1 & l1 & l2 & _ & _ & _ & _ & He & Hr & _ & _ & Ht & _).
+    unfold disp_measure. rewrite He, Hr. auto.
+  - destruct (pend st); [discriminate|]. inversion H; subst. auto.
+Qed.
+End Order.
+
+(* ------------------------------------------------------------------ periodic services *)
+Section Periodic.
+Variable prog : nat -> list cop.
+Variable c : nat.                                   (* the self re-arming callback *)
+Notation step := (step prog).
+Notation run := (run prog).
+Notation good := (good prog).
+
+Definition isc (t : timer) : bool := Nat.eqb (t_cb t) c.
+Definition cnt (l : list timer) : nat := length (filter isc l).
+Definition setsc (o : cop) : bool := match o with CSet cb => Nat.eqb cb c | CCancel => false end.
+Definition owes (rem : list cop) : nat := length (filter setsc rem).
+Definition owed (st : state) : nat := match running st with Some (_, rem) => owes rem | None => O end.
+(* instances of c pending, detached-but-not-started, or still to be re-armed by the running callback *)
+Definition inst (st : state) : nat := (cnt (expired st) + cnt (active st) + owed st)%nat.
+
+Hypothesis self_rearm : owes (prog c) = 1%nat.
+Hypothesis others_dont : forall d, d <> c -> owes (prog d) = O.
+
+(* the environment never cancels an instance of c (timer.c has no say in that) *)
+Definition env_ok (st : state) (l : label) : Prop :=
+  match l with
+  | LCancel id | LCbCancel id => forall t, In t (active st) -> t_id t = id -> t_cb t <> c
+  | _ => True
+  end.
+Definition adds (l : label) : nat := match l with LSet _ cb => if Nat.eqb cb c then 1 else 0 | _ => 0 end.
+
+Lemma cnt_cons x l : cnt (x :: l) = ((if isc x then 1 else 0) + cnt l)%nat.
+Proof. unfold cnt. cbn. destruct (isc x); reflexivity. Qed.
+
+Lemma cnt_app l m : cnt (l ++ m) = (cnt l + cnt m)%nat.
+Proof. unfold cnt. now rewrite filter_app, app_length. Qed.
+
+Lemma cnt_insert t l : cnt (insert t l) = ((if isc t then 1 else 0) + cnt l)%nat.
+Proof.
+  induction l as [|x r IH]; cbn [insert].
+  - rewrite cnt_cons. reflexivity.
+  - destruct (ts_le (t_ts x) (t_ts t)); rewrite !cnt_cons; [rewrite IH|]; lia.
+Qed.
+
+Lemma set_cnt st t cb st' id : do_set st t cb = (st', id) ->
+  cnt (active st') = ((if Nat.eqb cb c then 1 else 0) + cnt (active st))%nat
+  /\ expired st' = expired st /\ running st' = running st.
+Proof.
+  intros H. destruct (do_set_fields _ _ _ _ _ H) as (slot & _ & Ha & He & Hr & _).
+  rewrite Ha, cnt_insert. unfold isc. cbn. auto.
+Qed.
+
+Lemma cancel_cnt st id st' r : do_cancel st id = (st', r) ->
+  (forall t, In t (active st) -> t_id t = id -> t_cb t <> c) ->
+  cnt (active st') = cnt (active st) /\ expired st' = expired st /\ running st' = running st.
+Proof.
+  intros H Henv. destruct (do_cancel_fields _ _ _ _ H) as [(_ & _ & ->)|[(_ & _ & -> & _)|C]]; auto.
+  destruct C as (_ & _ & t & l1 & l2 & Ea & Ea' & Eid & _ & He & Hr & _).
+  rewrite Ea, Ea', !cnt_app, cnt_cons. repeat split; auto.
+  assert (isc t = false).
+  { unfold isc. apply Nat.eqb_neq. apply Henv; auto. rewrite Ea, in_app_iff. cbn. auto. }
+  rewrite H0. lia.
+Qed.
+
+Lemma inst_step st l st' o : Inv st -> env_ok st l -> step st l = Some (st', o) ->
+  inst st' = (inst st + adds l)%nat.
+Proof.
+  intros I Henv H. unfold inst, owed. destruct l; cbn [TimerModel.step adds] in *.
+  - destruct (do_set st t cb) as [s i] eqn:E. inversion H; subst.
+    destruct (set_cnt _ _ _ _ _ E) as (-> & -> & ->). destruct (Nat.eqb cb c); lia.
+  - destruct (do_cancel st id) as [s r] eqn:E. inversion H; subst.
+    destruct (cancel_cnt _ _ _ _ E Henv) as (-> & -> & ->). lia.
+  - destruct (pend st); [discriminate|]. inversion H; subst. cbn [expired active running]. lia.
+  - destruct (thr st) as [d|] eqn:Et; [|discriminate].
+    destruct (span_due now (active st)) as [pre post] eqn:Es.
+    destruct (span_due_spec _ _ _ _ Es) as (Eapp & _ & _).
+    destruct (inv_wait _ I _ Et) as (Ee & _ & _).
+    destruct pre; inversion H; subst; cbn [expired active running]; [lia|].
+    rewrite Ee, Eapp, cnt_app. cbn [cnt filter length]. lia.
+  - destruct (thr st) as [d|now]; [discriminate|]. destruct (running st) eqn:Er; [discriminate|].
+    destruct (expired st) as [|x r] eqn:Ee; [discriminate|]. inversion H; subst. cbn [expired active running].
+    rewrite cnt_cons. unfold isc. destruct (Nat.eqb_spec (t_cb x) c) as [E|E].
+    + rewrite E, self_rearm. lia.
+    + rewrite (others_dont _ E). lia.
+  - destruct (running st) as [[tm [|[cb|] rem]]|] eqn:Er; try discriminate.
+    destruct (do_set (set_running st (Some (tm, rem))) t cb) as [s i] eqn:E. inversion H; subst.
+    destruct (set_cnt _ _ _ _ _ E) as (-> & -> & ->). cbn [set_running active expired running].
+    unfold owes. cbn [filter setsc]. destruct (Nat.eqb cb c); cbn [length]; lia.
+  - destruct (running st) as [[tm [|[cb|] rem]]|] eqn:Er; try discriminate.
+    destruct (do_cancel (set_running st (Some (tm, rem))) id) as [s r] eqn:E. inversion H; subst.
+    destruct (cancel_cnt _ _ _ _ E Henv) as (-> & -> & ->). cbn [set_running active expired running].
+    unfold owes. cbn [filter setsc]. lia.
+  - destruct (running st) as [[tm [|c0 rem]]|] eqn:Er; try discriminate. inversion H; subst.
+    cbn [expired active running]. unfold owes. cbn. lia.
+  - destruct (thr st); [discriminate|]. destruct (running st) eqn:Er; [discriminate|].
+    destruct (expired st) eqn:Ee; [|discriminate]. inversion H; subst. cbn [expired active running]. lia.
+Qed.
+
+Fixpoint env_run (st : state) (ls : list label) : Prop :=
+  match ls with
+  | [] => True
+  | l :: r => env_ok st l /\ match step st l with Some (st', _) => env_run st' r | None => True end
+  end.
+
+Fixpoint total_adds (ls : list label) : nat :=
+  match ls with [] => O | l :: r => (adds l + total_adds r)%nat end.
+
+Lemma inst_run ls : forall n st st', good n st -> Z.of_nat (n + length ls) < long_max ->
+  run st ls = Some st' -> env_run st ls -> inst st' = (inst st + total_adds ls)%nat.
+Proof.
+  induction ls as [|l ls IH]; cbn [TimerModel.run length env_run total_adds]; intros n st st' G Hn H He.
+  - inversion H; subst. lia.
+  - destruct He as [He1 He2]. destruct (step st l) as [[s o]|] eqn:E; [|discriminate].
+    destruct (good_inv _ _ _ G) as [I _].
+    rewrite (IH (S n) s st'); auto.
+    + rewrite (inst_step _ _ _ _ I He1 E). lia.
+    + eapply good_step; eauto. lia.
+    + rewrite <- plus_n_Sm in Hn. exact Hn.
+Qed.
+
+(* exactly one instance, forever: along every run in which nobody else sets or cancels an instance of c,
+   whatever the clock readings (LWake carries arbitrary ones) and whatever the other timers do *)
+Theorem periodic_forever n st ls st' : good n st -> Z.of_nat (n + length ls) < long_max ->
+  inst st = 1%nat -> run st ls = Some st' -> env_run st ls -> total_adds ls = O ->
+  inst st' = 1%nat.
+Proof. intros G Hn H1 R He Ha. rewrite (inst_run ls _ _ _ G Hn R He), H1, Ha. reflexivity. Qed.
+
+(* whenever the timer thread is at rest, that one instance sits in the active list *)
+Theorem periodic_pending_at_rest n st d : good n st -> inst st = 1%nat -> thr st = Wait d ->
+  cnt (active st) = 1%nat.
+Proof.
+  intros G H1 Ht. destruct (good_inv _ _ _ G) as [I _]. destruct (inv_wait _ I _ Ht) as (Ee & Er & _).
+  unfold inst, owed in H1. rewrite Ee, Er in H1. cbn in H1. lia.
+Qed.
+
+(* gids flavour: other threads may add instances (gids_update after SIGHUP): never fewer than one *)
+Theorem periodic_at_least_one n st ls st' : good n st -> Z.of_nat (n + length ls) < long_max ->
+  (1 <= inst st)%nat -> run st ls = Some st' -> env_run st ls -> (1 <= inst st')%nat.
+Proof. intros G Hn H1 R He. rewrite (inst_run ls _ _ _ G Hn R He). lia. Qed.
+End Periodic.
+
+(* ------------------------------------------------------------------ clock_get_timespec *)
+Definition ts_ns (t : ts) : Z := fst t * nsec_per_sec + snd t.
+
+Lemma ts_add_ms_spec now ms : 0 <= snd now < nsec_per_sec -> 0 <= ms ->
+  ts_ns (ts_add_ms now ms) = ts_ns now + ms * nsec_per_msec
+  /\ 0 <= snd (ts_add_ms now ms) < nsec_per_sec.
+Proof.
+  intros Hn Hm. unfold ts_add_ms, ts_ns, nsec_per_sec, nsec_per_msec, msec_per_sec in *.
+  destruct (Z.ltb_spec 0 ms) as [Hp|Hp]; [|cbn [fst snd]; lia].
+  cbv zeta.
+  pose proof (Z.div_mod ms 1000 ltac:(lia)) as D1.
+  pose proof (Z.mod_pos_bound ms 1000 ltac:(lia)) as B1.
+  set (q := ms / 1000) in *. set (r := ms mod 1000) in *. clearbody q r.
+  set (ns := snd now + r * 1000000) in *.
+  destruct (Z.leb_spec 1000000000 ns) as [Hc|Hc]; cbn [fst snd].
+  - pose proof (Z.div_mod ns 1000000000 ltac:(lia)) as D2.
+    pose proof (Z.mod_pos_bound ns 1000000000 ltac:(lia)) as B2.
+    set (q2 := ns / 1000000000) in *. set (r2 := ns mod 1000000000) in *. clearbody q2 r2.
+    subst ns. lia.
+  - subst ns. lia.
+Qed.
+
+Lemma ts_ns_le a b : 0 <= snd a < nsec_per_sec -> 0 <= snd b < nsec_per_sec ->
+  (ts_le a b = true <-> ts_ns a <= ts_ns b).
+Proof.
+  intros Ha Hb. rewrite ts_le_spec. unfold ts_ns, nsec_per_sec in *. split; intros H.
+  - destruct H as [H|[H1 H2]]; nia.
+  - destruct (Z.lt_trichotomy (fst a) (fst b)) as [L|[E|G]]; [auto|right; split; nia|exfalso; nia].
+Qed.
+
+(* a relative timer never expires before `ms` milliseconds after the clock reading it was set at *)
+Theorem relative_not_early now ms : 0 <= snd now < nsec_per_sec -> 0 <= ms ->
+  ts_le now (ts_add_ms now ms) = true.
+Proof.
+  intros Hn Hm. destruct (ts_add_ms_spec now ms Hn Hm) as [E B].
+  apply ts_ns_le; auto. rewrite E. unfold nsec_per_msec. lia.
+Qed.
+
+(* ------------------------------------------------------------------ witnesses *)
+(* timer.c before the repair: `return (t->id)` after the unlock.  The caller of the first set is held between
+   unlock and return; its timer (id 1, already expired) is dispatched and retired; another thread's set re-uses
+   the struct (id 2); the first caller then reads id 2: two sets return the same id, and cancelling "its" timer
+   succeeds although that timer has fired — it removes the other thread's timer, which never fires. *)
+Definition race_trace : list ulabel :=
+  [ USetIns (50, 0) 0%nat; UBase LSignal; UBase (LWake (100, 0)); UBase LBegin; UBase LEnd; UBase LRetire;
+    UBase (LSet (1000, 0) 0%nat); USetRet; UBase (LCancel 2) ].
+
+Theorem set_return_after_unlock_witness :
+  exists st held t1,
+    run_u (fun _ => []) (init, []) race_trace
+      = Some ((st, held), [ONone; ONone; ONone; OFire t1; ONone; ONone; ORet 2; ORet 2; ORet 1])
+    /\ t_id t1 = 1 /\ active st = [] /\ map (fun p => t_id (fst p)) (fired st) = [1].
+Proof. do 3 eexists. vm_compute. repeat split; reflexivity. Qed.
+
+(* "expiry order" is an order on the active list, not a global one: a timer set (already expired) while a batch is
+   out runs after the whole batch, also after entries of that batch with a later expiry *)
+Definition across_batches_trace : list label :=
+  [ LSet (10, 0) 1%nat; LSet (20, 0) 0%nat; LSignal; LWake (25, 0); LBegin; LCbSet (15, 0); LEnd; LBegin; LEnd;
+    LRetire; LWake (25, 0); LBegin ].
+
+Theorem order_across_batches_witness :
+  exists st, run (fun cb => match cb with 1%nat => [CSet 0%nat] | _ => [] end) init across_batches_trace = Some st
+    /\ map (fun p => t_ts (fst p)) (fired st) = [(10, 0); (20, 0); (15, 0)].
+Proof. eexists. vm_compute. split; reflexivity. Qed.
+
+(* cancel searches the active list only: a timer already detached into the batch cannot be cancelled any more
+   (returns 0) and its callback still runs *)
+Definition cancel_detached_trace : list label :=
+  [ LSet (10, 0) 1%nat; LSet (10, 0) 0%nat; LSignal; LWake (10, 0); LBegin; LCbCancel 2 ].
+
+Theorem cancel_detached_witness :
+  exists st st' o st'', run (fun cb => match cb with 1%nat => [CCancel] | _ => [] end) init cancel_detached_trace = Some st
+    /\ step (fun cb => match cb with 1%nat => [CCancel] | _ => [] end) st' (LCbCancel 2) = Some (st, o) /\ o = ORet 0
+    /\ run (fun cb => match cb with 1%nat => [CCancel] | _ => [] end) st [LEnd; LBegin] = Some st''
+    /\ map (fun p => t_id (fst p)) (fired st'') = [1; 2].
+Proof.
+  remember (fun cb => match cb with 1%nat => [CCancel] | _ => [] end) as pg.
+  destruct (run pg init [LSet (10, 0) 1%nat; LSet (10, 0) 0%nat; LSignal; LWake (10, 0); LBegin]) as [s|] eqn:E.
+  2: { subst pg. vm_compute in E. discriminate. }
+  exists (match step pg s (LCbCancel 2) with Some (x, _) => x | None => s end), s.
+  subst pg. vm_compute in E. inversion E; subst. vm_compute. do 2 eexists. repeat split; reflexivity.
+Qed.
